@@ -79,16 +79,31 @@ func vfDownloadBlob(ctx context.Context, opts downloadOpts) (bool, error) {
 	return false, nil
 }
 
-func vfVerifyBlob(digest string) error {
-	ok := vfPresent[digest] && vfGood[digest]
-	vfTrace = append(vfTrace, vfEvent{kind: "verify", digest: digest, ok: ok})
-	if !vfPresent[digest] {
-		return os.ErrNotExist
+// verifyBlob itself is the REAL function; only what it touches is modelled: opening the blob file and
+// hashing what was opened.
+var vfOpened string
+
+func vfOpen(name string) (*os.File, error) {
+	vfOpened = ""
+	for _, d := range vfDigests {
+		if name == "/models/blobs/"+d {
+			if !vfPresent[d] {
+				vfTrace = append(vfTrace, vfEvent{kind: "verify", digest: d, ok: false})
+				return nil, os.ErrNotExist
+			}
+			vfOpened = d
+		}
 	}
-	if !ok {
-		return errDigestMismatch
+	return new(os.File), nil
+}
+
+func vfSHA256(r io.Reader) (string, int64) {
+	ok := vfOpened != "" && vfGood[vfOpened]
+	vfTrace = append(vfTrace, vfEvent{kind: "verify", digest: vfOpened, ok: ok})
+	if ok {
+		return vfOpened, 10
 	}
-	return nil
+	return "sha256:0bad", 10
 }
 
 func vfGetBlobsPath(digest string) (string, error) { return "/models/blobs/" + digest, nil }
